@@ -246,8 +246,9 @@ impl ObjectReceiver {
                 ) as usize,
             };
 
-            if self.nb_allocated_blocks >= 2
-                && self.total_allocated_blocks_size + block_length > self.max_size_allocated
+            if block_length > self.max_size_allocated
+                || (self.nb_allocated_blocks >= 2
+                    && self.total_allocated_blocks_size + block_length > self.max_size_allocated)
             {
                 log::error!(
                     "NB Allocated blocks={}/{} total_allocated={}/{} block_length={}",
